@@ -1796,6 +1796,7 @@ size_t _GD_DoField(DIRFILE *restrict D, gd_entry_t *restrict E, int repr,
     num_samp = GD_TRANSACTION_MAX(ntype);
   if (first_samp > (int64_t)(GD_INT64_MAX - num_samp)) {
     _GD_SetError(D, GD_E_RANGE, GD_E_OUT_OF_RANGE, NULL, 0, NULL);
+    D->recurse_level--;
     dreturn("%i", 0);
     return 0;
   }
